@@ -42,6 +42,12 @@ open ArrowModel.Generated.C14
 variable {P O : Type}
 theorem ipc_header_consts : IPC_HEADER_LEN = IPC_HEADER_FULL := by decide
 
+/-- the zero-copy slices start at offset 0 of the chunk (regenerated together with their guards) -/
+theorem ipc_msg_slice (buffer : Bytes) : buffer.drop IPC_MSG_SLICE_START = buffer := by
+  simp [show IPC_MSG_SLICE_START = 0 by decide]
+theorem ipc_body_slice (buffer : Bytes) : buffer.drop IPC_BODY_SLICE_START = buffer := by
+  simp [show IPC_BODY_SLICE_START = 0 by decide]
+
 theorem ipc_failed_absorb (pr : IpcParams P O) (e : IpcErr) (ctx : P) (xs : Bytes) :
     runBytes (ipcStep pr) ⟨.failed e, ctx⟩ xs = (⟨.failed e, ctx⟩, []) := by
   induction xs with
@@ -123,13 +129,13 @@ theorem ipcIterNoBody_halt (pr : IpcParams P O) (s : IpcState P) (b : Nat) (bs :
   obtain ⟨ph, ctx⟩ := s
   cases ph with
   | header buf cont =>
-    simp only [ipcIterNoBody] at hz ⊢
+    simp only [ipcIterNoBody, ipc_msg_slice] at hz ⊢
     by_cases hg : IPC_HEADER_LEN ≤ buf.length
     · simp [hg, runBytes, ipcStep, ipcStepNoBody, ipc_failed_absorb]
     · simp only [hg, ↓reduceIte] at hz
       split at hz <;> simp at hz <;> omega
   | message size buf =>
-    simp only [ipcIterNoBody] at hz ⊢
+    simp only [ipcIterNoBody, ipc_msg_slice] at hz ⊢
     by_cases hg : size ≤ buf.length
     · simp [hg, runBytes, ipcStep, ipcStepNoBody, ipc_failed_absorb]
     · simp only [hg, ↓reduceIte] at hz
@@ -149,7 +155,7 @@ theorem ipcIterNoBody_run (pr : IpcParams P O) (s : IpcState P) (b : Nat) (bs : 
   have hc := ipc_header_consts
   cases ph with
   | header buf cont =>
-    simp only [ipcIterNoBody] at hz ⊢
+    simp only [ipcIterNoBody, ipc_msg_slice] at hz ⊢
     by_cases hg : IPC_HEADER_LEN ≤ buf.length
     · simp [hg] at hz
     · simp only [hg, ↓reduceIte]
@@ -158,7 +164,7 @@ theorem ipcIterNoBody_run (pr : IpcParams P O) (s : IpcState P) (b : Nat) (bs : 
       rw [ipc_run_header pr ctx cont _ buf (by omega) (by simp [List.length_take]; omega)]
       split <;> simp_all
   | message size buf =>
-    simp only [ipcIterNoBody] at hz ⊢
+    simp only [ipcIterNoBody, ipc_msg_slice] at hz ⊢
     by_cases hg : size ≤ buf.length
     · simp [hg] at hz
     · simp only [hg, ↓reduceIte]
@@ -201,7 +207,7 @@ theorem ipcIter_halt (pr : IpcParams P O) (s : IpcState P) (b : Nat) (bs : Bytes
   · obtain ⟨ph, ctx⟩ := s
     cases ph with
     | body md bl buf =>
-      simp only [ipcIter] at hz ⊢
+      simp only [ipcIter, ipc_body_slice] at hz ⊢
       by_cases hg : ¬ buf.isEmpty ∧ bl ≤ buf.length
       · simp [hg, runBytes, ipcStep, ipc_failed_absorb]
       · simp only [hg, ↓reduceIte] at hz ⊢
@@ -241,7 +247,7 @@ theorem ipcIter_run (pr : IpcParams P O) (s : IpcState P) (b : Nat) (bs : Bytes)
   · obtain ⟨ph, ctx⟩ := s
     cases ph with
     | body md bl buf =>
-      simp only [ipcIter] at hz ⊢
+      simp only [ipcIter, ipc_body_slice] at hz ⊢
       by_cases hg : ¬ buf.isEmpty ∧ bl ≤ buf.length
       · simp [hg] at hz
       · simp only [hg, ↓reduceIte] at hz ⊢
@@ -877,4 +883,214 @@ theorem blk_parses_block_lemma (cb sb data sync : Bytes) (c : Nat)
   have : ¬ ((data.length : Int) < 0) := by omega
   simp only [this, ↓reduceIte, Int.toNat_natCast, List.nil_append]
   exact blk_data_then_sync c data sync hsync
+
+/-! ## CSV record decoder -/
+
+/-- `bulkLoop_eq_runBytes` under an invariant on (state, remaining buffer) -/
+theorem bulkLoop_eq_runBytes_inv {S B O : Type} (iter : S → List B → S × List O × Nat)
+    (step : S → B → S × List O) (Inv : S → List B → Prop)
+    (h0 : ∀ s b bs, Inv s (b :: bs) → (iter s (b :: bs)).2.2 = 0 →
+      runBytes step s (b :: bs) = ((iter s (b :: bs)).1, (iter s (b :: bs)).2.1))
+    (hk : ∀ s b bs, Inv s (b :: bs) → (iter s (b :: bs)).2.2 ≠ 0 →
+      runBytes step s ((b :: bs).take (iter s (b :: bs)).2.2) = ((iter s (b :: bs)).1, (iter s (b :: bs)).2.1))
+    (hp : ∀ s b bs, Inv s (b :: bs) → (iter s (b :: bs)).2.2 ≠ 0 →
+      Inv (iter s (b :: bs)).1 ((b :: bs).drop (iter s (b :: bs)).2.2))
+    (s : S) (buf : List B) (hi : Inv s buf) : bulkLoop iter s buf = runBytes step s buf := by
+  induction h : buf.length using Nat.strongRecOn generalizing s buf with
+  | _ n ih =>
+    cases buf with
+    | nil => simp [bulkLoop, runBytes]
+    | cons b bs =>
+      rw [bulkLoop]
+      by_cases hz : (iter s (b :: bs)).2.2 = 0
+      · simp only [hz, ↓reduceDIte]; exact (h0 s b bs hi hz).symm
+      · simp only [hz, ↓reduceDIte]
+        have hlen : ((b :: bs).drop (iter s (b :: bs)).2.2).length < n := by
+          simp only [List.length_drop, List.length_cons] at *; omega
+        rw [ih _ hlen _ _ (hp s b bs hi hz) rfl]
+        conv => rhs; rw [← List.take_append_drop (iter s (b :: bs)).2.2 (b :: bs)]
+        rw [runBytes_append, hk s b bs hi hz]
+
+theorem csv_err_absorb (cfg : CsvCfg) (s : CsvState) (h : s.err = true) (xs : Bytes) :
+    runBytes (csvStep cfg) s xs = (s, []) := by
+  induction xs with
+  | nil => simp [runBytes]
+  | cons x xs ih => simp [runBytes, csvStep, h, ih]
+
+/-- `scan_and_copy`: a run of ordinary bytes inside a field is appended to the field -/
+theorem csv_plain_run (cfg : CsvCfg) (s : CsvState) (run : Bytes) (he : s.err = false)
+    (hs : s.st = .inField ∨ s.st = .inQuoted) (hr : ∀ c ∈ run, csvPlain c = true) (hne : run ≠ []) :
+    runBytes (csvStep cfg) s run = ({ s with hasRead := true, field := s.field ++ run }, []) := by
+  induction run generalizing s with
+  | nil => exact absurd rfl hne
+  | cons x xs ih =>
+    have hx := hr x (by simp)
+    have hx' : x ≠ 44 ∧ x ≠ 34 ∧ x ≠ 13 ∧ x ≠ 10 := by
+      simp [csvPlain] at hx; omega
+    have step : csvStep cfg s x = ({ s with hasRead := true, field := s.field ++ [x] }, []) := by
+      rcases hs with h | h <;> simp [csvStep, he, h, hx'.1, hx'.2.1, isTerm, hx'.2.2.1, hx'.2.2.2]
+    simp only [runBytes, step]
+    cases xs with
+    | nil => simp [runBytes]
+    | cons y ys =>
+      rw [ih _ (by simpa using he) (by simpa using hs) (fun c hc => hr c (by simp [hc])) (by simp)]
+      simp
+
+def csvInv (s : CsvState) (buf : Bytes) : Prop :=
+  s.err = true ∨ s.hasRead = true ∨ ¬ (buf.length ≥ 3 ∧ buf.take 3 = csvBom)
+
+theorem csvFlush_hasRead (s : CsvState) : (csvFlush s).1.hasRead = s.hasRead := by
+  unfold csvFlush; repeat' split
+  all_goals rfl
+
+theorem csvEndRecord_hasRead (cfg : CsvCfg) (s : CsvState) (st' : CsvSt) :
+    (csvEndRecord cfg s st').1.hasRead = s.hasRead := by
+  unfold csvEndRecord
+  simp only
+  repeat' split
+  all_goals first | rfl | (rw [csvFlush_hasRead])
+
+theorem csvStartField_hasRead (cfg : CsvCfg) (s : CsvState) (c : Nat) :
+    (csvStartField cfg s c).1.hasRead = s.hasRead := by
+  unfold csvStartField
+  repeat' split
+  all_goals first | rfl | (rw [csvEndRecord_hasRead])
+
+theorem csvStartRecord_hasRead (cfg : CsvCfg) (s : CsvState) (c : Nat) :
+    (csvStartRecord cfg s c).1.hasRead = s.hasRead := by
+  unfold csvStartRecord
+  split
+  · rfl
+  · exact csvStartField_hasRead cfg s c
+
+theorem csvStep_hasRead (cfg : CsvCfg) (s : CsvState) (c : Nat) (he : s.err = false) :
+    (csvStep cfg s c).1.hasRead = true := by
+  unfold csvStep
+  simp only [he, Bool.false_eq_true, ↓reduceIte]
+  repeat' split
+  all_goals first
+    | rfl
+    | (rw [csvStartRecord_hasRead])
+    | (rw [csvStartField_hasRead])
+    | (rw [csvEndRecord_hasRead])
+
+theorem take_takeWhile_length {α : Type} (p : α → Bool) (l : List α) :
+    l.take (l.takeWhile p).length = l.takeWhile p := by
+  induction l with
+  | nil => rfl
+  | cons x xs ih =>
+    by_cases h : p x
+    · simp [h, ih]
+    · simp [h]
+
+theorem mem_takeWhile_sat {α : Type} (p : α → Bool) (l : List α) : ∀ c ∈ l.takeWhile p, p c = true := by
+  induction l with
+  | nil => simp
+  | cons x xs ih =>
+    by_cases h : p x
+    · simp only [List.takeWhile_cons, h, ↓reduceIte, List.mem_cons]
+      intro c hc; rcases hc with rfl | hc
+      · exact h
+      · exact ih c hc
+    · simp [h]
+
+theorem csvIter_halt (cfg : CsvCfg) (s : CsvState) (b : Nat) (bs : Bytes)
+    (hz : (csvIter cfg s (b :: bs)).2.2 = 0) :
+    runBytes (csvStep cfg) s (b :: bs) = ((csvIter cfg s (b :: bs)).1, (csvIter cfg s (b :: bs)).2.1) := by
+  unfold csvIter at hz ⊢
+  by_cases he : s.err = true
+  · simp [he, csv_err_absorb]
+  · simp only [he, Bool.false_eq_true, ↓reduceIte] at hz ⊢
+    split at hz
+    · simp at hz
+    · split at hz
+      · rename_i h; have := h.2
+        change (List.takeWhile csvPlain (b :: bs)).length = 0 at hz; omega
+      · simp at hz
+
+theorem csvIter_run (cfg : CsvCfg) (s : CsvState) (b : Nat) (bs : Bytes) (hi : csvInv s (b :: bs))
+    (hz : (csvIter cfg s (b :: bs)).2.2 ≠ 0) :
+    runBytes (csvStep cfg) s ((b :: bs).take (csvIter cfg s (b :: bs)).2.2) =
+      ((csvIter cfg s (b :: bs)).1, (csvIter cfg s (b :: bs)).2.1) := by
+  unfold csvIter at hz ⊢
+  by_cases he : s.err = true
+  · simp [he] at hz
+  · have he' : s.err = false := by simpa using he
+    simp only [he, Bool.false_eq_true, ↓reduceIte] at hz ⊢
+    by_cases hbom : (!s.hasRead) = true ∧ (b :: bs).length ≥ 3 ∧ (b :: bs).take 3 = csvBom
+    · exfalso
+      rcases hi with h | h | h
+      · exact he h
+      · simp [h] at hbom
+      · exact h hbom.2
+    · simp only [hbom, ↓reduceIte] at hz ⊢
+      by_cases hrun : (s.st = .inField ∨ s.st = .inQuoted) ∧ ((b :: bs).takeWhile csvPlain).length > 0
+      · simp only [hrun, and_self, ↓reduceIte]
+        rw [take_takeWhile_length]
+        have := csv_plain_run cfg s _ he' hrun.1 (mem_takeWhile_sat csvPlain (b :: bs))
+          (by intro h; rw [h] at hrun; simp at hrun)
+        rw [this]; simp [he']
+      · simp only [hrun, ↓reduceIte, List.take_succ_cons, List.take_zero, runBytes]
+        simp
+
+theorem csvIter_inv (cfg : CsvCfg) (s : CsvState) (b : Nat) (bs : Bytes)
+    (hz : (csvIter cfg s (b :: bs)).2.2 ≠ 0) : (csvIter cfg s (b :: bs)).1.hasRead = true := by
+  unfold csvIter at hz ⊢
+  by_cases he : s.err = true
+  · simp [he] at hz
+  · have he' : s.err = false := by simpa using he
+    simp only [he, Bool.false_eq_true, ↓reduceIte] at hz ⊢
+    split
+    · rfl
+    · split
+      · rfl
+      · exact csvStep_hasRead cfg s b he'
+
+/-- **Refinement (CSV).** -/
+theorem csvFeed_eq_runBytes (cfg : CsvCfg) (s : CsvState) (chunk : Bytes) (hi : csvInv s chunk) :
+    csvFeed cfg s chunk = runBytes (csvStep cfg) s chunk :=
+  bulkLoop_eq_runBytes_inv (csvIter cfg) (csvStep cfg) csvInv
+    (fun s b bs _ hz => csvIter_halt cfg s b bs hz)
+    (fun s b bs hi hz => csvIter_run cfg s b bs hi hz)
+    (fun s b bs _ hz => Or.inr (Or.inl (csvIter_inv cfg s b bs hz))) s chunk hi
+
+theorem csvRun_hasRead (cfg : CsvCfg) (s : CsvState) (xs : Bytes) (hne : xs ≠ []) :
+    (runBytes (csvStep cfg) s xs).1.hasRead = true ∨ (runBytes (csvStep cfg) s xs).1.err = true := by
+  induction xs generalizing s with
+  | nil => exact absurd rfl hne
+  | cons x xs ih =>
+    simp only [runBytes]
+    by_cases he : s.err = true
+    · right; have := csv_err_absorb cfg s he (x :: xs); simp only [runBytes] at this
+      have h1 := congrArg Prod.fst this; simp only at h1; rw [h1]; exact he
+    · have he' : s.err = false := by simpa using he
+      have h1 := csvStep_hasRead cfg s x he'
+      cases xs with
+      | nil => left; simpa [runBytes] using h1
+      | cons y ys => exact ih _ (by simp)
+
+theorem csv_runChunks (cfg : CsvCfg) (s : CsvState) (cs : List Bytes)
+    (h : csvInv s cs.flatten) :
+    runChunks (csvFeed cfg) s cs = runBytes (csvStep cfg) s cs.flatten := by
+  induction cs generalizing s with
+  | nil => simp [runChunks, runBytes]
+  | cons c cs ih =>
+    have hc : csvInv s c := by
+      rcases h with h | h | h
+      · exact Or.inl h
+      · exact Or.inr (Or.inl h)
+      · refine Or.inr (Or.inr ?_)
+        intro hb; apply h
+        simp only [List.flatten_cons, List.length_append]
+        refine ⟨by omega, ?_⟩
+        rw [List.take_append_of_le_length hb.1]; exact hb.2
+    have hfeed := csvFeed_eq_runBytes cfg s c hc
+    have hnext : csvInv (runBytes (csvStep cfg) s c).1 cs.flatten := by
+      by_cases hne : c = []
+      · subst hne; simpa [runBytes] using h
+      · rcases csvRun_hasRead cfg s c hne with h1 | h1
+        · exact Or.inr (Or.inl h1)
+        · exact Or.inl h1
+    simp only [runChunks, hfeed, List.flatten_cons, runBytes_append]
+    rw [ih _ hnext]
 end ArrowModel.C14
